@@ -22,7 +22,8 @@ def G():
 
 def summary_infos(e):
   """[(summary table id, source table id, [(summary col id, source col id, source col type)] sorted by summary
-  col id)] from the metadata tables (the group-by columns are the columns with summarySourceCol)."""
+  col id, [other data columns])] from the metadata tables (the group-by columns are the columns with
+  summarySourceCol)."""
   t = e.fetch_table('_grist_Tables')
   c = e.fetch_table('_grist_Tables_column')
   tid = {rid: t.columns['tableId'][i] for i, rid in enumerate(t.row_ids)}
@@ -32,16 +33,20 @@ def summary_infos(e):
   for rid in t.row_ids:
     if not src[rid] or src[rid] not in tid:
       continue
-    gb = []
+    gb, leftover = [], []
     for cr in c.row_ids:
       ci = col[cr]
-      if ci['parentId'] == rid and ci['summarySourceCol']:
+      if ci['parentId'] != rid:
+        continue
+      if ci['summarySourceCol']:
         sc = col.get(ci['summarySourceCol'])
         if sc is None:
           gb.append((ci['colId'], None, None))
         else:
           gb.append((ci['colId'], sc['colId'], sc['type']))
-    out.append((tid[rid], tid[src[rid]], sorted(gb)))
+      elif not ci['isFormula']:
+        leftover.append(ci['colId'])     # a data column of a summary table that is not a group-by column
+    out.append((tid[rid], tid[src[rid]], sorted(gb), sorted(leftover)))
   return out
 
 
@@ -138,7 +143,13 @@ def row_defect(types, cells):
 
 def oracle_table(e, info):
   """Returns a list of (kind, description) for one summary table; empty when it is an exact group-by."""
-  sid, src_id, gb = info
+  sid, src_id, gb, leftover = info
+  if leftover:
+    # known finding C12-stale-groupby-column: the table kept the data column of a group-by source column that
+    # was removed; its rows are still one per old value.  Everything else about it follows from that.
+    return [('stale-groupby-column', '%s: data column(s) %r are not group-by columns any more (their source column '
+             'is gone) but the table and its %d row(s) are still there, grouped by %r'
+             % (sid, leftover, len(e.fetch_table(sid).row_ids), [c for (c, _s, _t) in gb]))]
   if any(sc is None for (_c, sc, _t) in gb):
     return [('dangling-groupby', '%s: a group-by column has no source column' % sid)]
   types = [t for (_c, _sc, t) in gb]
@@ -649,18 +660,30 @@ def build_case(pre, post, lookup_mod, dirties=None):
   return kinds, dirties, prev, src, summ, expect
 
 
-def run_history(seed, nb, direct=False, rec=None, undo_rate=0.15):
-  """Generator of steps: dict(history, bundle, failed, calls, post, issues)."""
+def run_history(seed, nb, direct=False, rec=None, undo_rate=0.15, script=None):
+  """Generator of steps: dict(history, bundle, failed, calls, evals, post, issues, touched).
+  With `script` (a list of bundles; the string 'UNDO' stands for the undo of the previous successful bundle)
+  the bundles come from the script instead of the random generator."""
   g = G()
   rng = random.Random(seed)
-  gen = make_gen(rng, direct)
   e, _ = g.new_doc()
   history = []
-  from harness import histgen
-  setup = [[gen.gen_addtable(histgen.Meta(e))] for _ in range(rng.randint(1, 2))]
+  if script is None:
+    from harness import histgen
+    gen = make_gen(rng, direct)
+    setup = [[gen.gen_addtable(histgen.Meta(e))] for _ in range(rng.randint(1, 2))]
+    total = len(setup) + nb
+  else:
+    gen, setup, total = None, [], len(script)
   last_undo = None
-  for step in range(len(setup) + nb):
-    if step < len(setup):
+  for step in range(total):
+    if script is not None:
+      bundle = script[step]
+      if bundle == 'UNDO':
+        if last_undo is None:
+          continue
+        bundle = [['ApplyUndoActions', last_undo]]
+    elif step < len(setup):
       bundle = setup[step]
     elif last_undo is not None and rng.random() < undo_rate:
       bundle = [['ApplyUndoActions', last_undo]]
@@ -671,9 +694,9 @@ def run_history(seed, nb, direct=False, rec=None, undo_rate=0.15):
     if rec is not None:
       rec.begin()
     try:
-      out = g.apply(e, bundle)
+      out = g.apply(e, copy.deepcopy(bundle))
       failed = None
-    except Exception as ex:
+    except Exception as ex:      # pylint: disable=broad-except
       failed = '%s: %s' % (type(ex).__name__, str(ex)[:200])
     finally:
       if rec is not None:
@@ -681,15 +704,16 @@ def run_history(seed, nb, direct=False, rec=None, undo_rate=0.15):
     if failed:
       g.clean(e)
       yield {'history': copy.deepcopy(history), 'bundle': bundle, 'failed': failed, 'engine': e,
-             'issues': oracle(e), 'calls': [], 'post': None}
+             'issues': oracle(e), 'calls': [], 'evals': [], 'post': None, 'touched': [], 'undo': is_undo}
       continue
-    gen.after_bundle(e)
+    if gen is not None:
+      gen.after_bundle(e)
     if not is_undo:
       last_undo = g.reprs(out.undo)
     yield {'history': copy.deepcopy(history), 'bundle': bundle, 'failed': None, 'engine': e,
            'issues': oracle(e), 'calls': list(rec.calls) if rec is not None else [],
            'evals': list(rec.evals) if rec is not None else [],
-           'post': rec.postsnap(e) if rec is not None else None,
+           'post': rec.postsnap(e) if rec is not None else None, 'undo': is_undo,
            'touched': sorted(set(a[1] for a in g.reprs(out.stored) if len(a) > 1 and isinstance(a[1], str)))}
     history.append(bundle)
 
@@ -730,3 +754,268 @@ def minimise(history, bundle, kind, budget=120):
     return any(k == kind for k, _ in replay_issues(h, b)[1])
   b = histgen.shrink_list(bundle, fails_b, max_steps=20) if len(bundle) > 1 else bundle
   return h, b
+
+
+# ------------------------------------------------------------------------------------------------
+# Scripted scenarios (the edge cases the property names), run through the same oracle and correspondence
+
+def _t(cols):
+  return [{'id': c, 'type': t, 'isFormula': False} for c, t in cols]
+
+
+SCRIPTS = collections.OrderedDict([
+  ('by-0-1-2-columns', [
+    [['AddTable', 'T', _t([('A', 'Text'), ('B', 'Int'), ('C', 'Numeric')])]],
+    [['BulkAddRecord', 'T', [None] * 5, {'A': ['a', 'b', 'a', '', None], 'B': [1, 2, 1, 1, True], 'C': [1, 2.5, 3, 4, 5]}]],
+    [['CreateViewSection', 1, 0, 'record', [], None]],
+    [['CreateViewSection', 1, 0, 'record', [2], None]],
+    [['CreateViewSection', 1, 0, 'record', [2, 3], None]], 'UNDO',
+    [['CreateViewSection', 1, 0, 'record', [3, 2], None]],
+    [['UpdateRecord', 'T', 1, {'A': 'b'}]], 'UNDO',
+    [['BulkUpdateRecord', 'T', [1, 3], {'A': ['z', 'z'], 'B': [7, 8]}]],
+    [['BulkRemoveRecord', 'T', [1, 3]]], 'UNDO',
+    [['BulkRemoveRecord', 'T', [1, 2, 3, 4, 5]]],
+    [['AddRecord', 'T', None, {'A': 'q', 'B': 0}]],
+    [['RenameColumn', 'T', 'A', 'A2'], ['UpdateRecord', 'T', 1, {'A2': 'w'}]],
+    [['RenameTable', 'T', 'U']],
+    [['AddRecord', 'U', None, {'A2': 'w', 'B': 0}], ['AddRecord', 'U', None, {'A2': 'w', 'B': 1}]],
+    [['RemoveColumn', 'U', 'B']],
+    [['RemoveColumn', 'U', 'A2']],
+  ]),
+  ('choice-list', [
+    [['AddTable', 'T', _t([('A', 'Text'), ('L', 'ChoiceList')])]],
+    [['BulkAddRecord', 'T', [None] * 6, {'A': ['a', 'a', 'b', 'b', 'a', 'a'],
+                                         'L': [['L', 'x', 'y'], None, ['L', 'y', 'y', 'x'], 'str', ['L'], ['L', '']]}]],
+    [['CreateViewSection', 1, 0, 'record', [3], None]],
+    [['CreateViewSection', 1, 0, 'record', [2, 3], None]],
+    [['UpdateRecord', 'T', 2, {'L': ['L', 'z']}]], 'UNDO',
+    [['UpdateRecord', 'T', 1, {'L': None}], ['UpdateRecord', 'T', 3, {'L': ['L', 'x']}]],
+    [['ModifyColumn', 'T', 'L', {'type': 'Choice'}]], 'UNDO',
+    [['ModifyColumn', 'T', 'L', {'type': 'Choice'}]],
+    [['UpdateRecord', 'T', 1, {'L': 'x'}]],
+    [['ModifyColumn', 'T', 'L', {'type': 'ChoiceList'}]],
+    [['RenameChoices', 'T', 'L', {'x': 'y'}]],
+    [['BulkRemoveRecord', 'T', [1, 2]]],
+  ]),
+  ('ref-list', [
+    [['AddTable', 'T', _t([('R', 'Ref:T'), ('RL', 'RefList:T'), ('B', 'Bool')])]],
+    [['BulkAddRecord', 'T', [None] * 5, {'R': [1, 1, 0, 2, 9], 'RL': [['L', 1, 2], None, ['L', 2, 2], ['L', 9], 'alt'],
+                                         'B': [True, False, True, None, 1]}]],
+    [['CreateViewSection', 1, 0, 'record', [2], None]],
+    [['CreateViewSection', 1, 0, 'record', [3], None]],
+    [['CreateViewSection', 1, 0, 'record', [4, 3], None]],
+    [['RemoveRecord', 'T', 1]], 'UNDO',
+    [['RemoveRecord', 'T', 2]],
+    [['ModifyColumn', 'T', 'RL', {'type': 'Ref:T'}]], 'UNDO',
+    [['ModifyColumn', 'T', 'R', {'type': 'RefList:T'}]],
+    [['UpdateRecord', 'T', 3, {'R': ['L', 3, 4, 3]}]],
+  ]),
+  ('regroup-and-undo', [
+    [['AddTable', 'Items', _t([('A', 'Text'), ('B', 'Int'), ('L', 'ChoiceList')])]],
+    [['BulkAddRecord', 'Items', [None] * 3, {'A': ['a', 'b', 'a'], 'B': [1, 1, 2], 'L': [['L', 'x'], ['L', 'x', 'y'], None]}]],
+    [['CreateViewSection', 1, 0, 'record', [2], None]],
+    [['UpdateSummaryViewSection', 5, [3, 2]], ['BulkUpdateRecord', 'Items', [1], {'A': ['c'], 'B': [5]}]], 'UNDO',
+    [['UpdateSummaryViewSection', 5, [3, 2]]],
+    [['UpdateSummaryViewSection', 5, [4]]], 'UNDO',
+    [['UpdateSummaryViewSection', 5, []]],
+    [['UpdateSummaryViewSection', 5, [4, 2]]],
+    [['AddRecord', 'Items', None, {'A': 'a', 'L': ['L', 'y', 'z']}]],
+    [['RemoveColumn', 'Items', 'A']],
+  ]),
+  ('direct-edits-of-a-summary-table', [
+    [['AddTable', 'T', _t([('A', 'Text')])]],
+    [['BulkAddRecord', 'T', [None] * 2, {'A': ['a', 'b']}]],
+    [['CreateViewSection', 1, 0, 'record', [2], None]],
+    [['AddRecord', 'T_summary_A', None, {'A': 'a'}]], 'UNDO',
+    [['AddRecord', 'T_summary_A', None, {'A': 'zz'}]],
+    [['BulkAddRecord', 'T_summary_A', [None, None], {'A': ['b', 'b']}], ['AddRecord', 'T', None, {'A': 'b'}]],
+    [['UpdateRecord', 'T_summary_A', 1, {'A': 'q'}]],
+    [['RemoveRecord', 'T_summary_A', 1]],
+  ]),
+])
+
+# the minimal witnesses of the known findings (also entries of known_findings.json)
+WITNESSES = {
+  'helper-raises': {'history': [
+    [['AddTable', 'T', _t([('A', 'Any')])]],
+    [['BulkAddRecord', 'T', [None, None], {'A': [2, 3]}]],
+    [['CreateViewSection', 1, 0, 'record', [2], None]]],
+    'bundle': [['UpdateRecord', 'T', 1, {'A': ['L', 'a', 'b']}]], 'kind': 'helper-raises'},
+  'tuple-key': {'history': [
+    [['AddTable', 'T', _t([('B', 'ChoiceList')])]],
+    [['BulkAddRecord', 'T', [None, None], {'B': [['L', 'x', 'y'], ['L', 'x', 'y']]}]],
+    [['ModifyColumn', 'T', 'B', {'type': 'Any'}]]],
+    'bundle': [['CreateViewSection', 1, 0, 'record', [2], None]], 'kind': 'tuple-key'},
+  'stale-groupby-column': {'history': [
+    [['AddTable', 'T', _t([('A', 'Int'), ('D', 'Int')])]],
+    [['BulkAddRecord', 'T', [None, None], {'A': [1, 2], 'D': [5, 6]}]],
+    [['CreateViewSection', 1, 0, 'record', [3], None]]],
+    'bundle': [['RemoveColumn', 'T', 'D'], ['UpdateSummaryViewSection', 5, []]], 'kind': 'stale-groupby-column'},
+}
+
+
+# ------------------------------------------------------------------------------------------------
+# The check
+
+RULE = ('histories of user-action bundles on 1-3 tables (harness/histgen.py, summary operations over-represented: '
+        'CreateViewSection with 0-3 group-by columns incl. Choice List / Reference List / formula columns, '
+        'UpdateSummaryViewSection, Choice<->ChoiceList and Ref<->RefList type flips, updates aimed at group-by source '
+        'cells incl. duplicate list elements, empty lists, strings in list-typed cells, True/1/1.0, renames, removal of '
+        'source rows and columns, several summary tables of one source, undo of the previous bundle), a separate stream '
+        'with AddRecord directly on summary tables, and scripted scenarios; one case = one summary table after one '
+        'successful bundle; non-trivial when the bundle touched the source or the summary table (stored actions)')
+TRUSTED = ['Model/Summary.v is hand-written; tied on every run: for every successful bundle and every summary table the '
+           'summary rows before the settle loop, the entries of the helper column\'s lookup map, the helper cells the engine '
+           're-evaluated in each round, and the source cells are read from the running engine; the model (settle_trace, '
+           'vm_compute) must produce exactly the rows, keys, row ids and groups the engine ends with',
+           'harness-side value mapping (classify/atom in harness/props/c12.py): Python values -> atoms modulo ==/hash, after '
+           'the conversion Table.lookup_records applies (column.convert of the summary column, Record -> row id); monitored: '
+           'set()/sorted() on the raw elements agree with the model\'s dedup/order on the atoms',
+           'instrumentation points Engine._bring_all_up_to_date, Engine._recompute_one_cell, Table._summary_source_table/'
+           '_summary_helper_col_id/_summary_simple, LookupMapColumn._mapping (harness-side wrappers)']
+ASSUMPTIONS = ['exactness (C12_settled_exact_partial) assumes that no helper formula raises (no_raise: every group-by cell '
+               'readable, scalar ones hashable); the two refuted statements are the known finding C12-helper-raises',
+               'the model assumes a row added by the helper formula stores the key that was looked up (fails for tuples in a '
+               'scalar column: known finding C12-tuple-key; such cases are skipped and counted) and that the group-by columns '
+               'of the summary table exist in the source (otherwise: known finding C12-stale-groupby-column)',
+               'the engine re-evaluates only dirty helper cells: the theorems are about full re-evaluation (settle_loop); '
+               'C12_incremental_is_full carries them over when the entries that are not re-evaluated are up to date '
+               '(clean_valid); the number of recorded cases where full re-evaluation gives another table is reported '
+               '(full_recompute_differs)',
+               'Engine.is_triggered_by_table_action is false during the settle loop (it is true only inside '
+               '_bring_mlookups_up_to_date); keys containing NaN are outside the model and the generators',
+               'row ids of the source and of the summary table are distinct (hypotheses of the theorems)']
+TECHNIQUE = ('Coq proof over a hand-written executable model of the helper formula / lookupOrAddDerived / group lookup / '
+             'auto-removal / settle loop + event-trace tie on real histories (vm_compute) + implementation oracle')
+LEVEL_TEXT = ('Kernel-checked: whenever the settle loop of apply_user_actions ends, the summary table has exactly the keys '
+              'of the source records (one key per combination of distinct list elements, \'\'/0 for empty lists, none for '
+              'non-list values: C12_keys_characterised), no two rows share a key, every group is the ascending list of the '
+              'records with that key and no group is empty, for all source data, group-by kinds and prior summary tables '
+              '(incl. tables with duplicate keys); the loop ends after at most two rounds and the result is stable; simple '
+              'mode and list mode agree; the engine\'s incremental re-evaluation is carried over by C12_incremental_is_full. '
+              'The model is replayed against the engine on every run and a naive group-by oracle is evaluated after every '
+              'bundle.')
+LEVEL_NOTE = ('Kernel strength: metadata handling of summary.py (update_summary_section, table naming), the lookup '
+              'invalidation machinery that decides which helper cells are dirty, and value conversion are environment; their '
+              'effects are taken from the run.  Three defects of the unchanged tree are known findings (helper formula '
+              'raises; tuple keys; stale summary table after removing a group-by source column and regrouping in one bundle).')
+
+
+def plan(ctx):
+  """[(label, seed, bundles, direct)]"""
+  base = ctx.rng.randrange(1 << 30)
+  n_main, nb_main = ctx.n(10, 150), ctx.n(20, 30)
+  n_dir, nb_dir = ctx.n(3, 40), ctx.n(14, 25)
+  return ([('main', base + i, nb_main, False) for i in range(n_main)] +
+          [('direct', base + 100000 + i, nb_dir, True) for i in range(n_dir)])
+
+
+def collect(ctx):
+  """Runs all histories and scripts once; returns (cases, issues): cases = [(meta, case tuple)],
+  issues = [(kind, what, replay dict)]."""
+  if getattr(ctx, '_c12', None) is not None:
+    return ctx._c12
+  import lookup as lookup_mod
+  rec = Recorder()
+  cases, issues = [], []
+  try:
+    runs = [(label, seed, nb, direct, None) for (label, seed, nb, direct) in plan(ctx)]
+    runs += [('script:' + name, 0, 0, False, script) for name, script in SCRIPTS.items()]
+    runs += [('witness:' + name, 0, 0, False, w['history'] + [w['bundle']]) for name, w in WITNESSES.items()]
+    for (label, seed, nb, direct, script) in runs:
+      stream = label.split(':')[0]
+      try:
+        for st in run_history(seed, nb, direct, rec, script=script):
+          ctx.bump('bundles:%s:%s' % (stream, 'failed' if st['failed'] else ('undo' if st['undo'] else 'ok')))
+          for a in (st['bundle'] if not st['failed'] and not st['undo'] else []):
+            ctx.bump('action:' + str(a[0]))
+          for kind, what in st['issues']:
+            issues.append((kind, what + (' [state after a failed, rolled back bundle]' if st['failed'] else ''),
+                           {'history': st['history'], 'bundle': st['bundle'], 'kind': kind, 'seed': seed,
+                            'stream': label}))
+          for sid, case, skip in cases_of_step(st, lookup_mod):
+            if skip:
+              ctx.bump('skipped:' + skip)
+              continue
+            touched = st['post'][sid]['src'] in st['touched'] or sid in st['touched']
+            cases.append(({'stream': label, 'seed': seed, 'table': sid, 'bundle': st['bundle'],
+                           'nhistory': len(st['history']), 'touched': touched}, case))
+      except core.TieBroken:
+        raise
+      except Exception:        # pylint: disable=broad-except
+        ctx.broken('harness:C12 history %s seed %s' % (label, seed), traceback.format_exc())
+  finally:
+    rec.uninstall()
+  ctx.log('engine: %d cases from %d runs, %d oracle issues' % (len(cases), len(runs), len(issues)))
+  ctx._c12 = (cases, issues)
+  return ctx._c12
+
+
+def correspond(ctx):
+  cases, _issues = collect(ctx)
+  lits = []
+  for meta, case in cases:
+    kinds, dirties, prev, src, summ, expect = case
+    nontrivial = meta['touched'] or [r[:2] for r in expect] != [tuple(r) for r in summ]
+    changed = [(r[0], r[1]) for r in expect] != [(r[0], r[1]) for r in summ]
+    ctx.count((meta['stream'], meta['seed'], meta['nhistory'], meta['table']), nontrivial=bool(nontrivial),
+              sample={'table': meta['table'], 'bundle': meta['bundle'], 'kinds': kinds, 'rows_before': len(summ),
+                      'rows_after': len(expect), 'reevaluated': dirties},
+              kind='kinds:' + (''.join(kinds) or '-'))
+    if changed:
+      ctx.bump('rows-added-or-removed')
+    if len(dirties) > 1:
+      ctx.bump('settle-rounds>1')
+    if any(c[0] in 'UE' for _rid, cells in src for c in cells):
+      ctx.bump('with-raising-helper')
+    lits.append(case_lit(*case))
+  bad = ctx.run_cases('settle', ['Grist.Model.Summary'], 'check_case', lits, shard=100)
+  for i in bad[:5]:
+    meta, case = cases[i]
+    ctx.broken('correspondence:Model/Summary.v settle_trace differs from the engine',
+               'table %s after bundle %r (stream %s seed %s, after %d bundles); model input %r'
+               % (meta['table'], meta['bundle'], meta['stream'], meta['seed'], meta['nhistory'], case[:5]))
+  # how often does the engine's incremental evaluation differ from full re-evaluation (not an error: the
+  # theorem C12_incremental_is_full has the hypothesis clean_valid)
+  sub = list(range(len(lits))) if ctx.tier == 'thorough' else list(range(0, len(lits), 3))
+  diff = ctx.run_cases('full', ['Grist.Model.Summary'], 'check_case_full', [lits[i] for i in sub], shard=100)
+  diff = [sub[i] for i in diff if sub[i] not in set(bad)]
+  ctx.extra['full_recompute_checked'] = len(sub)
+  ctx.extra['full_recompute_differs'] = len(diff)
+  if diff:
+    meta, case = cases[diff[0]]
+    ctx.extra['full_recompute_differs_example'] = {'table': meta['table'], 'bundle': meta['bundle'],
+                                                   'stream': meta['stream'], 'seed': meta['seed']}
+  ctx.log('correspondence: %d cases, %d differ; full re-evaluation differs on %d of %d'
+          % (len(lits), len(bad), len(diff), len(sub)))
+
+
+def known_kinds():
+  return set(k.get('violation_kind') for k in core.load_known()
+             if k.get('property') == ID and k.get('kind') == 'known')
+
+
+def search(ctx):
+  _cases, issues = collect(ctx)
+  known = known_kinds()
+  reported = collections.Counter()
+  for kind, what, rep in issues:
+    ctx.bump('oracle:' + kind)
+    if reported[kind] >= (1 if kind in known else 3):
+      continue
+    reported[kind] += 1
+    if kind not in known:
+      try:
+        h, b = minimise(rep['history'], rep['bundle'], rep['kind'], budget=ctx.n(60, 200))
+        rep = dict(rep, history=h, bundle=b)
+      except Exception:        # pylint: disable=broad-except
+        pass
+    ctx.violation(kind, what, rep)
+
+
+def replay(ctx, w):
+  failed, issues = replay_issues(w['history'], w['bundle'])
+  for kind, what in issues:
+    if kind == w.get('kind'):
+      return what
+  return None
